@@ -53,7 +53,11 @@ ReportedValue(s, t) ==
           (((t.res[1] ** t.res[2]) ** s.S) ** s.S) \succeq (((s.res[1] ** s.res[2]) ** t.S) ** t.S)>>,
      <<"drift.query.reported-reserves=balance-minus-owed-fees",
         ok(t.res) => \A a \in 1 .. 2 : t.res[a] ++ t.fee[a] = t.bal[a]>> >>
-Globals(s, t, o) == StateChecks(t) \o StepChecks(s, t) \o QueryChecks(o) \o ReportedValue(s, t)
+\* what the fee collector was paid by this event other than through a fee collection: the proceeds of a swap addressed to it
+GiftOf(ev) ==
+  IF ev.ev = "swap" /\ ev.res = "ok" /\ ev.args.to = "collector"
+  THEN [a \in 1 .. 2 |-> IF a = Oth(ev.args.dir) THEN ev.out.ret ELSE Zero] ELSE <<Zero, Zero>>
+Globals(s, t, o, gift) == StateChecks(t) \o StepChecksG(s, t, gift) \o QueryChecks(o) \o ReportedValue(s, t)
 
 Unchanged(ev, t) ==
   << <<"C01.rejected.unchanged", t = st>>,
@@ -231,7 +235,7 @@ EvChecks(ev, t) ==
      [] ev.ev = "donate" -> DonateEv(ev, t)
      [] ev.ev = "lptransfer" -> LpTransferEv(ev, t)
      [] OTHER -> << <<"TRACE.unknown-event", FALSE>> >>)
-  \o Globals(st, t, ev.obs) \o TogChecks(ev)
+  \o Globals(st, t, ev.obs, GiftOf(ev)) \o TogChecks(ev)
 
 ResetChecks(t, o) ==
   << <<"C17.fresh.all-enabled", t.tog.d /\ t.tog.w /\ t.tog.s>>,
